@@ -3139,6 +3139,12 @@ LEFT JOIN conversions ON {join_condition}{group_by}{order_clause}{limit_clause}
             # Track time granularity for matching
             if gran:
                 time_granularity = gran
+            else:
+                # A time dimension requested without a granularity has no column in a
+                # rollup (rollups store <dimension>_<granularity>): answer from the base table
+                dim_obj = model.get_dimension(dim_name)
+                if dim_obj is not None and dim_obj.type == "time":
+                    return None
 
         # Extract metric names (without model prefix)
         metric_names = []
